@@ -25,6 +25,33 @@ def coro_arg(call: ast.Call) -> Optional[ast.expr]:
     return None
 
 
+def coro_of(ctx: Ctx, n: Node):
+    """The coroutine a create_task step schedules -> (expression, package coroutine functions it calls or None).
+    A local is read through its single binding; a parameter of a helper spliced into its caller through the argument that call
+    passes (`self._create_named_task(task_id, self._task_wrapper(...))` -> `create_task(coro=coroutine, ...)`)."""
+    arg = coro_arg(n.ast)
+    if arg is None:
+        return None, None
+    arg = ctx.vals.resolve(n.func, arg)  # `coro = self._spawner(...); create_task(coro)`
+    fr = n.func
+    if isinstance(arg, ast.Name) and n.env and arg.id in n.env:
+        ls = ctx.vals.leaves_at(n, arg)
+        if len(ls) == 1 and isinstance(ls[0][2], ast.Call):
+            fr, _env, arg = ls[0]
+    targets = None
+    if isinstance(arg, ast.Call):
+        if (id(arg), id(n.env)) in ctx.an.partial_syn:
+            # `factory()` with factory = partial(self._spawner, ...): the coroutine of that spawner, with the frozen arguments
+            fr_, _env = ctx.an.partial_frame[(id(arg), id(n.env))]
+            arg = ctx.an.partial_syn[(id(arg), id(n.env))]
+            cal = ctx.an.scope(fr_).callee(arg)
+        else:
+            cal = ctx.an.scope(fr).callee(arg)
+        if cal.kind == "pkg":
+            targets = cal.targets
+    return arg, targets
+
+
 def create_sites(ctx: Ctx, funcs=None) -> List[Tuple[Node, Optional[ast.expr], Optional[List[FuncInfo]]]]:
     """(site, coroutine expression, package coroutine functions it calls or None)"""
     out = []
@@ -35,20 +62,7 @@ def create_sites(ctx: Ctx, funcs=None) -> List[Tuple[Node, Optional[ast.expr], O
         if k_ in seen_:
             continue
         seen_.add(k_)
-        arg = coro_arg(n.ast)
-        if arg is not None:
-            arg = ctx.vals.resolve(n.func, arg)  # `coro = self._spawner(...); create_task(coro)`
-        targets = None
-        if isinstance(arg, ast.Call):
-            if (id(arg), id(n.env)) in ctx.an.partial_syn:
-                # `factory()` with factory = partial(self._spawner, ...): the coroutine of that spawner, with the frozen arguments
-                fr_, _env = ctx.an.partial_frame[(id(arg), id(n.env))]
-                arg = ctx.an.partial_syn[(id(arg), id(n.env))]
-                cal = ctx.an.scope(fr_).callee(arg)
-            else:
-                cal = ctx.an.scope(n.func).callee(arg)
-            if cal.kind == "pkg":
-                targets = cal.targets
+        arg, targets = coro_of(ctx, n)
         out.append((n, arg, targets))
     return out
 
@@ -188,6 +202,10 @@ def r_user_coroutine_uses(ctx: Ctx, rule: str):
                     ok = True
                 elif isinstance(par, (ast.Compare, ast.FormattedValue)):
                     ok = True
+                elif isinstance(par, (ast.Assign, ast.AnnAssign)) and par.value is node and all(isinstance(t_, ast.Name) for t_ in (par.targets if isinstance(par, ast.Assign) else [par.target])):
+                    # `c2 = c`: another name for the same coroutine, held to the same rule
+                    ok = True
+                    check(f, uv | {t_.id for t_ in (par.targets if isinstance(par, ast.Assign) else [par.target])})
                 if not ok and isinstance(par, ast.Await):
                     rep.ob(rule, "a user coroutine is never awaited inline by a spawner (it would run outside the pool's accounting)", False,
                            func=f, construct=par)
@@ -270,9 +288,8 @@ def slot_balance(ctx: Ctx, f: FuncInfo):
             else:
                 ai.event(n, "releases a pool slot this invocation does not own (none acquired, or already handed to the created task)", st)
         if normal and n.op == "call" and ctx.is_ext_call(n, *CREATE_TASK):
-            arg = coro_arg(n.ast)
-            arg = ctx.vals.resolve(n.func, arg) if arg is not None else None
-            if isinstance(arg, ast.Call) and any(t.name == "_task_wrapper" for t in ctx.an.scope(n.func).callee(arg).targets):
+            _arg, tg_ = coro_of(ctx, n)
+            if tg_ and any(t.name == "_task_wrapper" for t in tg_):
                 handed = True
         return [(held, handed)]
 
@@ -378,7 +395,7 @@ def r_handoff(ctx: Ctx, rule="R02.1"):
     sites = wrapper_sites(ctx)
     rep.floor(rule, "create_task(_task_wrapper(...)) sites", len(sites), 1)
     for site in sites:
-        f = site.func
+        f = site.root if site.root is not None else site.func  # (the creation may sit in a helper spliced into the acquirer)
         g = ctx.an.cfg(f)
         acq = slot_acquires(ctx, f)
         holds = bool(acq) and dominated_by_completion(g, acq, site)
@@ -388,20 +405,18 @@ def r_handoff(ctx: Ctx, rule="R02.1"):
             rep.ob(rule, "creator holds no undischarged slot at the hand-off", True, node=site)
             continue
         # is the release inside the new task's body?
-        arg = coro_arg(site.ast)
-        arg = ctx.vals.resolve(site.func, arg) if arg is not None else None
-        cal = ctx.an.scope(site.func).callee(arg) if isinstance(arg, ast.Call) else None
+        _arg, body_fns = coro_of(ctx, site)
         in_body = False
-        if cal is not None and cal.kind == "pkg":
-            for t in cal.targets:
-                res = count_paths(ctx.an, t, release_pred(ctx))
-                if any(c != frozenset({0}) for c in res.values()):
-                    in_body = True
+        for t in body_fns or []:
+            res = count_paths(ctx.an, t, release_pred(ctx))
+            if any(c != frozenset({0}) for c in res.values()):
+                in_body = True
         if not in_body:
             rep.ob(rule, "the slot acquired for the task is released somewhere", None, node=site, detail="no release found in the task body either")
             continue
         # can the task be reached by a cancel before its first step?  It is published in a registry ...
-        stored = [e for m in g.nodes if m.stmt is site.stmt for e in ctx.eff.of_node(m) if e.kind == "insert" and field_of(e.path) in ("_tasks_running",)]
+        stored = [e for m in g.nodes if m.stmt is site.stmt or (site.func is not f and can_follow(site, m) and not any(ctx.effective(x) for x in between([site], [m])))
+                  for e in ctx.eff.of_node(m) if e.kind == "insert" and field_of(e.path) in ("_tasks_running",)]
         cancels = [e for e in ctx.effects(kinds=["cancel", "maybe-cancel"]) if ctx.in_pool(e.node.func)]
         reachers = sorted({ctx.fname(e.node.func) for e in cancels})
         # mitigations
@@ -434,9 +449,9 @@ def r_handoff(ctx: Ctx, rule="R02.1"):
                    node=site, detail="done-callback found" + ("" if good else " but it does not visibly release the slot"))
             continue
         if stored and cancels:
-            rep.ob(rule, "a pool task cancelled before its first step still returns its slot and leaves the running registry", False, node=site,
-                   construct="create_task(" + ",".join(t.qual for t in cal.targets) + "(...)) with the slot held",
-                   detail=f"slot acquired at {acq[0].where()} is released only inside the task body ({', '.join(t.short for t in cal.targets)} -> _task_ending); "
+            rep.ob(rule, "a pool task cancelled before its first step still returns its slot and leaves the running registry", False, node=site, func=f,
+                   construct="create_task(" + ",".join(t.qual for t in body_fns) + "(...)) with the slot held",
+                   detail=f"slot acquired at {acq[0].where()} is released only inside the task body ({', '.join(t.short for t in body_fns)} -> _task_ending); "
                           f"the task is published in _tasks_running in the same statement and can be cancelled by {reachers} "
                           "before it has run its first step, in which case the body (and its finally) never executes")
         else:
